@@ -41,6 +41,7 @@ func runLedger(j Job) *Result {
 	c05 := mon.NewStats("C05")
 	c06 := mon.NewStats("C06")
 	c16 := mon.NewStats("C16")
+	c09 := mon.NewStats("C09")
 	for i := j.From; i < j.To; i++ {
 		hist := fmt.Sprintf("ledger:%s:%d:%d", j.Variant, j.Seed, i)
 		o := ops.DefaultLedgerOpts()
@@ -68,8 +69,9 @@ func runLedger(j Job) *Result {
 		}
 		m1, m2, m3, m4 := mon.NewC01(hist), mon.NewC02(hist), mon.NewC03(hist), mon.NewC04(hist)
 		m7, m5, m6, m16 := mon.NewC07(hist), mon.NewC05(hist), mon.NewC06(hist), mon.NewC16(hist)
+		m9 := mon.NewC09(hist)
 		m3.OperState = ops.OperState
-		w.Monitors = []ops.Monitor{m1, m2, m3, m4, m7, m5, m6, m16}
+		w.Monitors = []ops.Monitor{m1, m2, m3, m4, m7, m5, m6, m16, m9}
 		w.RunLedger(o)
 		res.Histories++
 		res.Steps += int64(len(w.Steps))
@@ -110,6 +112,11 @@ func runLedger(j Job) *Result {
 			c06.Sample(map[string]interface{}{"history": hist, "first_steps": w.Steps[:10]})
 			c16.Sample(map[string]interface{}{"history": hist, "first_steps": w.Steps[:10]})
 			for _, st := range w.Steps {
+				if st.Fail && len(c09.Samples) < 6 {
+					c09.Sample(map[string]interface{}{"history": hist, "failed_step": st})
+				}
+			}
+			for _, st := range w.Steps {
 				if (st.Kind == "setkey" || st.Kind == "optout" || st.Kind == "optin") && len(c07.Samples) < 5 {
 					c07.Sample(map[string]interface{}{"history": hist, "step": st})
 				}
@@ -128,6 +135,7 @@ func runLedger(j Job) *Result {
 		c05.Merge(m5.S)
 		c06.Merge(m6.S)
 		c16.Merge(m16.S)
+		c09.Merge(m9.S)
 		if w.ConsensusHalt != "" {
 			c06.Violate("cometbft-rejects-update-list", "", hist, len(w.Steps), "CometBFT validator-set validation refused the update list: %s", w.ConsensusHalt)
 		}
@@ -143,5 +151,6 @@ func runLedger(j Job) *Result {
 	res.AddStats(c05)
 	res.AddStats(c06)
 	res.AddStats(c16)
+	res.AddStats(c09)
 	return res
 }
